@@ -24,6 +24,9 @@ def check(ctx):
     repo = ctx.repo
     from . import generic as _gen
     _gen.language_traps(ctx, _gen.anchor_functions(repo, "C16"), "the property holds for every input, on every call")
+    # aggregate orders its groups with ListOfDicts.sort: the sort's own rule belongs to this property as well
+    from .C15 import check_sort as _check_sort
+    _check_sort(ctx, repo)
     _gen.total_functions(ctx, ["dataiter.list_of_dicts.ListOfDicts.group_by"])
     I = interp(repo)
     for r, t in (("ORD-4", "lookup dict built over reversed(other): first match wins"),
